@@ -1824,9 +1824,10 @@ func declarationKeptOnce(c *Ctx, rule, consequence string) {
 	}
 	for _, h := range hdrs {
 		ss := byHdr[h]
-		if len(ss) < 2 {
-			continue // a single append site that is not in an inner loop cannot run twice … unless it sits in an inner loop
+		if len(ss) == 0 {
+			continue
 		}
+		// (a single append site is judged the same way: inside an inner loop it can still run twice)
 		ev := A.EventVar("declaration-kept-in-this-iteration")
 		A.PhiFilter = func(*ssa.Phi) bool { return false }
 		q, err := A.NewQuery([]int{ev})
@@ -1851,5 +1852,5 @@ func declarationKeptOnce(c *Ctx, rule, consequence string) {
 			R.Check(ok, rule, fmt.Sprintf("once:append#%d", n), "(*Policy).sanitizeStyles declaration loop: append of a declaration", c.P.Pos(s.cl.Pos()), "no earlier append in the same iteration", "a declaration that was already kept in this iteration can be kept again (the rule scan goes on after a match): "+consequence)
 		}
 	}
-	R.Role(rule, "appends of declarations in the declaration loop", n, 3)
+	R.Role(rule, "appends of declarations in the declaration loop", n, 1)
 }
